@@ -26,7 +26,7 @@
  *   FACTOR                          mpq_ILLfactor on the current columns
  *   FTRAN <cnt> (<idx> <val>)*      -> FTRAN x_0 .. x_{n-1}
  *   BTRAN <cnt> (<idx> <val>)*      -> BTRAN y_0 .. y_{n-1}
- *   FUPD <col> <cnt> (<row> <val>)* ftran_update with the new column, then ILLfactor_update replacing basis position col;
+ *   FUPD <col> <cnt> (<row> <val>)* ftran_update with the new column (-> FUPDX x, FUPDS spike as listed), then ILLfactor_update replacing basis position col;
  *                                   on failure / refactor request: fresh factorization (REFACTOR), undone if singular (REVERT)
  *   FDUMP                           representation dump of the factor_work
  *   FFREE
@@ -325,7 +325,7 @@ int main (int argc, char **argv)
 			int col = atoi (qsx_tok[1]), refactor = 0, rv, i, oldlen, *oldind;
 			mpq_t *oldcoef;
 			if (!F || col < 0 || col >= FN) qsx_die ("FUPD");
-			if (!Fvalid) { printf ("FUPDX NOFACTOR\nFUPD NOFACTOR\n"); fflush (stdout); continue; }
+			if (!Fvalid) { printf ("FUPDX NOFACTOR\nFUPDS NOFACTOR\nFUPD NOFACTOR\n"); fflush (stdout); continue; }
 			parse_svec (2, &a, FN);
 			mpq_ILLsvector_init (&x); mpq_ILLsvector_alloc (&x, FN);
 			mpq_ILLsvector_init (&upd); mpq_ILLsvector_alloc (&upd, FN);
@@ -338,6 +338,10 @@ int main (int argc, char **argv)
 			Fclen[col] = a.nzcnt;
 			mpq_ILLfactor_ftran_update (F, &a, &upd, &x);
 			print_dense ("FUPDX", &x, FN);
+			/* the spike handed to ILLfactor_update, as listed (order and explicit zeros kept) */
+			printf ("FUPDS %d", upd.nzcnt);
+			for (i = 0; i < upd.nzcnt; i++) { printf (" %d ", upd.indx[i]); qsx_print_q (stdout, upd.coef[i]); }
+			putchar ('\n');
 			rv = mpq_ILLfactor_update (F, &upd, col, &refactor);
 			printf ("FUPD %d %d", rv, refactor);
 			if (rv || refactor)
